@@ -24,8 +24,10 @@ rc_all = 0
 try:
     subprocess.run(["git", "-C", "/repo", "worktree", "add", "--detach", repo, "HEAD"], check=True, stdout=subprocess.DEVNULL, stderr=subprocess.DEVNULL)
     if a.revert:
-        d = subprocess.run(["git", "-C", "/repo", "show", a.revert], check=True, stdout=subprocess.PIPE).stdout
-        subprocess.run(["git", "-C", repo, "apply", "-R"], input=d, check=True)
+        r = subprocess.run(["git", "-C", repo, "revert", "--no-commit", a.revert], stdout=subprocess.PIPE, stderr=subprocess.STDOUT)
+        if r.returncode != 0:
+            print(f"SELFTEST {a.revert}: cannot revert cleanly (later commits touch the same lines)")
+            raise SystemExit(0)
     if a.patch:
         subprocess.run(["git", "-C", repo, "apply", os.path.abspath(a.patch)], check=True)
     subprocess.run(["rsync", "-a", "--exclude", "build", "--exclude", "logs", "--exclude", ".git", "--exclude", "replays",
